@@ -125,7 +125,7 @@ def mod_list(v, i, path, f):
 
 def limit(i):
     """modulus for the position's type"""
-    return 256 if i == IDX['cfg.pow_bits'] else ((1 << 64) if i == IDX['unsent.pow.nonce'] else P)
+    return 256 if i == IDX['cfg.pow_bits'] else ((1 << 64) if i in (IDX['unsent.pow.nonce'], IDX['pi.dynamic_params']) else P)
 
 
 def base_proofs(HX, tier, layouts=('recursive',), files=None):
